@@ -27,22 +27,30 @@ REQUIRED = {"episodes": 100, "episodes:nontrivial": 50, "episode-steps": 1000, "
             "episodes:equation": 10, "episodes:used-rules>=4": 10}
 
 
-def compare_with_start(rec, start_sh, cur_sh, folded, hints, rng):
+def compare_with_start(rec, start_sh, cur_sh, unresolved, hints, rng):
+    """exact comparison on exactified shadows (see exact.resolve_folds); once a fold of the
+    episode could not be resolved, expressions fall back to the tolerance and equations are
+    skipped"""
+    start_sh, cur_sh = X.exactify(start_sh), X.exactify(cur_sh)
     names = S.variables(start_sh) | S.variables(cur_sh)
     if start_sh[0] == "Equal":
         if cur_sh[0] != "Equal":
             return "diff", "no longer an equation"
         sig = list(hints) + X.assignments(names, rng, n_extra=2)
         sig = sig + X.witnesses([start_sh, cur_sh], names, sig)
-        r = X.compare_equations(start_sh, cur_sh, sig, folded, folded)
+        r = X.compare_equations(start_sh, cur_sh, sig, False, False)
         if r["diffs"]:
+            if unresolved:
+                return "skip", "unresolved float fold"
             s0, ta, tb = r["diffs"][0]
             return "diff", f"start holds={ta}, current holds={tb} at {X.sigma_json(s0)}"
         return ("same" if r["common"] >= 3 and r["true_a"] >= 1 else "skip"), ""
     if cur_sh[0] == "Equal":
         return "diff", "became an equation"
     sig = X.assignments(names, rng, n_extra=2)
-    r = X.compare_values(start_sh, cur_sh, sig, folded)
+    r = X.compare_values(start_sh, cur_sh, sig, False)
+    if r["diffs"] and unresolved:
+        r = X.compare_values(start_sh, cur_sh, sig, True)
     if r["diffs"]:
         s0, a, b = r["diffs"][0]
         return "diff", f"start {a}, current {b} at {X.sigma_json(s0)}"
@@ -54,7 +62,8 @@ def run_episode(rec, root, rng, rules, max_steps, policy, text, hints, steps_scr
     ep = D.Episode(root, rng, policy=policy)
     folded = False
     MR.HINTS[:] = hints
-    MR.EPISODE["folded"] = False
+    MR.new_lineage()
+    MR.EPISODE["active"] = True
     crng = random.Random(core.h64(("c09", text)))
     status = "ok"
     for i in range(max_steps):
@@ -83,9 +92,8 @@ def run_episode(rec, root, rng, rules, max_steps, policy, text, hints, steps_scr
         if D.too_big(cur_sh) or S.has_nonfinite(cur_sh):
             status = "bounded"
             break
-        if X.folded(prev_sh, cur_sh):
-            folded = True
-            MR.EPISODE["folded"] = True
+        if MR.EPISODE["folded"]:
+            folded = True   # some fold of this episode could not be given its exact value
         rec.ev()
         v, d = compare_with_start(rec, start_sh, cur_sh, folded, hints, crng)
         rec.arm("start-compare:" + v)
@@ -110,6 +118,7 @@ def run_episode(rec, root, rng, rules, max_steps, policy, text, hints, steps_scr
                        "summary": f"episode from '{text}' steps {ep.steps[:10]}...: state {bad} changed afterwards"})
     MR.HINTS[:] = []
     MR.EPISODE["folded"] = False
+    MR.EPISODE["active"] = False
     return ep, status
 
 
